@@ -44,12 +44,12 @@ CHECKS = {
         'technique': 'Hypothesis ASTs x exhaustive truth assignments vs lazy reference evaluator',
     },
     'C14': {
-        'text': 'Hypothesis tables (ascending/unsorted/duplicate/text/blank keys, width 1-4) with VLOOKUP exact/approximate/omitted, MATCH 0/1/omitted, XMATCH from start/end and binary over ascending keys, mixed-case text keys, INDEX over every (r,c) around the area, INDEX(MATCH), COLUMN, the same unqualified texts on a twin sheet with other payload, whole-column spellings of the key column / table and keys planted below the data through the executor (positions are row numbers); ADDRESS exhaustively over all 16384 columns x sampled rows; oracle = independent linear search / direct indexing / bijective base-26; keys that differ only in the 13th digit / at 1e-13, computed (float) INDEX positions, a zero index whose partner lies outside the area',
+        'text': 'Hypothesis tables (ascending/unsorted/duplicate/text/blank keys, width 1-4) with VLOOKUP exact/approximate/omitted, MATCH 0/1/omitted, XMATCH from start/end and binary over ascending keys, mixed-case text keys, INDEX over every (r,c) around the area, INDEX(MATCH), COLUMN, the same unqualified texts on a twin sheet with other payload, whole-column spellings of the key column / table and keys planted below the data through the executor (positions are row numbers); ADDRESS exhaustively over all 16384 columns x sampled rows; oracle = independent linear search / direct indexing / bijective base-26; keys that differ only in the 13th digit / at 1e-13, computed (float) INDEX positions, a zero index whose partner lies outside the area; VLOOKUP column numbers and ADDRESS coordinates written as computations (4/2)',
         'note': 'trusted: vf/props/c14.py oracles; approximate matching only on ascending numeric keys; 0-index INDEX and binary XMATCH modes not asserted',
         'technique': 'Hypothesis + boundary construction vs reference search; exhaustive ADDRESS sweep',
     },
     'C15': {
-        'text': 'grids through overrides: DATE(y,m,d) over 6 years x months -30..40 x days -800..800 with YEAR/MONTH/DAY inverses, EDATE/EOMONTH over every day of 2019-2024 x offsets -60..60, DATEDIF D/M/Y/YM targeted at anniversaries, NETWORKDAYS both orders with seeded holiday sets, every month end as EDATE / EOMONTH start, years 1900 / 1901, TODAY bracketed by two clock reads and followed on one long-lived executor while a faked local date moves; oracle = datetime/calendar arithmetic (quick tier strides the grids, thorough enumerates them)',
+        'text': 'grids through overrides: DATE(y,m,d) over 6 years x months -30..40 x days -800..800 with YEAR/MONTH/DAY inverses, EDATE/EOMONTH over every day of 2019-2024 x offsets -60..60, DATEDIF D/M/Y/YM targeted at anniversaries, NETWORKDAYS both orders with seeded holiday sets, every month end as EDATE / EOMONTH start, years 1900 / 1901, TODAY bracketed by two clock reads and followed on one long-lived executor while a faked local date moves; oracle = datetime/calendar arithmetic (quick tier strides the grids, thorough enumerates them); DATE parts handed over as the floats a computation gives, a blank months cell under EDATE / EOMONTH',
         'note': 'trusted: python datetime/calendar; years 1904..9999; DATEDIF with start > end not asserted',
         'technique': 'exhaustive grid enumeration vs datetime/calendar reference',
     },
@@ -59,7 +59,7 @@ CHECKS = {
         'technique': 'exhaustive decimal grid + Hypothesis decimals vs decimal.Decimal.quantize',
     },
     'C17': {
-        'text': 'Hypothesis texts over a mixed-case alphabet with wildcard and regex-special characters (as constants, literals, overrides) x positions/counts around the length for LEFT/RIGHT/MID, the rebuild identity, & / CONCATENATE (texts, numbers, quotients, booleans), SEARCH (plain/wildcard/escaped/regex-special needles, start positions), VALUE; oracle = slicing, own wildcard prefix matcher, Decimal; texts with a line break under SEARCH wildcards, numbers of the decade 1e15..1e17 under & / CONCATENATE',
+        'text': 'Hypothesis texts over a mixed-case alphabet with wildcard and regex-special characters (as constants, literals, overrides) x positions/counts around the length for LEFT/RIGHT/MID, the rebuild identity, & / CONCATENATE (texts, numbers, quotients, booleans), SEARCH (plain/wildcard/escaped/regex-special needles, start positions), VALUE; oracle = slicing, own wildcard prefix matcher, Decimal; texts with a line break under SEARCH wildcards, numbers of the decade 1e15..1e17 under & / CONCATENATE; LEFT / RIGHT / MID counts and SEARCH start positions written as computations',
         'note': 'trusted: vf/props/c17.py oracles; SEARCH start asserted for 1..len, text form of numbers only for ints / short decimals',
         'technique': 'Hypothesis structured generation vs substring-algebra reference + round-trip identity',
     },
